@@ -161,9 +161,12 @@ class Tr:
             self.cur_sq = False
             try:
                 body, kind = self.lst(st.value), "list"
-            except Unavailable:
+            except Unavailable as e_list:
                 self.cur_sq = False
-                body, kind = self.scalar(st.value), "scalar"
+                try:
+                    body, kind = self.scalar(st.value), "scalar"
+                except Unavailable:
+                    raise Unavailable(f"{self.fn.name}.{name}: {e_list}")
             # a definition needs `sq` if it uses it directly or through an earlier definition
             needs = self.cur_sq or any(self.uses_sq_of.get(n) and f"{self.prefix}_{n} sq" in body for n in self.kind)
             self.uses_sq_of[name] = needs
